@@ -253,7 +253,7 @@ func registerIntrinsics(e *Exec) {
 	}
 	in["vh:vhWatch"] = func(e *Exec, a []Value, _ *ssa.CallCommon) Value { return nil }
 	in["vh:vhSummaries"] = func(e *Exec, a []Value, _ *ssa.CallCommon) Value {
-		e.noSummaries = !a[0].(*Term).IsTrue()
+		e.noSummaries = !a[0].(*Term).IsTrue() || e.Cfg.NoSummaries
 		return nil
 	}
 	in["vh:vhNote"] = func(e *Exec, a []Value, _ *ssa.CallCommon) Value { return nil }
